@@ -179,7 +179,29 @@ def check_value(t, d, vin, vexp, kw, tsig):
     if p[2] != len(b[1]):
         return "unconsumed", [{"sig": "C01/encoding-not-consumed/" + tsig, "case": case,
                                "detail": "%s: build(%r) = %s, parse consumed only %d bytes" % (T.show(t), vin, b[1].hex(), p[2])}]
+    # the order in which a dict lists the members is irrelevant (declaration order decides the layout)
+    rv = reorder(vin)
+    if rv is not None:
+        b2 = rt.build(d, rv, kw)
+        if b2 != b:
+            return "differs", [{"sig": "C01/build-depends-on-dict-order/" + tsig, "case": case,
+                                "detail": "%s: build(%r) = %s, but with the keys listed in reverse order: %r" % (T.show(t), vin, b[1].hex(), b2[:2])}]
     return "ok", []
+
+
+def reorder(v):
+    """the same value with every dict listing its keys in reverse order; None if there is no dict with two keys inside"""
+    found = [False]
+    def go(x):
+        if isinstance(x, dict):
+            if len(x) > 1:
+                found[0] = True
+            return {k: go(x[k]) for k in reversed(list(x))}
+        if isinstance(x, list):
+            return [go(y) for y in x]
+        return x
+    out = go(v)
+    return out if found[0] else None
 
 
 def admissible(t, vin, vexp, kw):
